@@ -621,8 +621,12 @@ func (m *nf) adjustment(a *gt.Node) *gt.Node {
 	}
 	w, ok := a.Get("with")
 	if !ok {
-		m.exclude("adjustment without with")
-		return out
+		// no `with`: the adjustment names no dimension at all (the same as `with: {}`)
+		w = gt.MapN(false)
+		m.feat("adjustment-without-with")
+	}
+	if w.Kind == gt.Null {
+		w = gt.MapN(false) // `with: null` names no dimension either
 	}
 	withScalar := func(x *gt.Node) string {
 		switch x.Kind {
@@ -848,6 +852,10 @@ func canonCommand(s *gt.Node) {
 				}
 				if sk, ok := a.Get("skip"); ok && (sk.Kind == gt.Null || sk.Kind == gt.Bool && !sk.B) {
 					a.Del("skip")
+				}
+				// a `with` naming no dimension: absent == null == {}
+				if wv, ok := a.Get("with"); !ok || wv.Kind == gt.Null {
+					a.Put("with", gt.MapN(false))
 				}
 			}
 		}
